@@ -49,3 +49,140 @@ Section Lists.
     destruct l; cbn [firstn skipn app]; [now rewrite firstn_nil | now rewrite IHx].
   Qed.
 End Lists.
+
+Lemma u16_small x : 0 <= x < 65536 -> u16 x = x.
+Proof. intros; unfold u16; apply Z.mod_small; lia. Qed.
+Lemma u8_small x : 0 <= x < 256 -> u8 x = x.
+Proof. intros; unfold u8; apply Z.mod_small; lia. Qed.
+
+(* ---- the sender ------------------------------------------------------------ *)
+Section SenderProofs.
+  Context {A : Type}.
+  Variable F : Z.
+  Hypothesis HF : 0 < F.
+
+  Lemma size_gt_len (n : packet A) : 0 <= p_tags n -> len (p_data n) < size n.
+  Proof.
+    intros Ht; unfold size, HeaderSize.
+    destruct (is_nil (p_data n)) eqn:E.
+    - apply is_nil_len in E; lia.
+    - repeat match goal with |- context [if ?b then _ else _] => destruct b end; lia.
+  Qed.
+
+  (* the loop of write without its two guards *)
+  Fixpoint pieces (k : nat) (n : packet A) (g m i : Z) (rest : list A) : list (packet A) :=
+    match k with
+    | O => []
+    | S k' => mkfrag n g m i (take F rest) :: pieces k' n g m (i + 1) (drop F rest)
+    end.
+
+  Lemma carve_pieces n g m x : forall k i t rest,
+    i + Z.of_nat k <= m -> t + len rest < x ->
+    carve F k n g m x i t rest = pieces k n g m i rest.
+  Proof.
+    induction k as [|k IH]; intros i t rest Hi Ht; [reflexivity|].
+    cbn [carve pieces].
+    pose proof (len_nonneg rest).
+    replace (i <? m) with true by lia. replace (t <? x) with true by lia. cbn [andb].
+    f_equal. apply IH; [lia|].
+    pose proof (f_equal len (take_drop F rest)) as E. rewrite len_app in E. lia.
+  Qed.
+
+  Lemma pieces_length n g m : forall k i rest, length (pieces k n g m i rest) = k.
+  Proof. induction k; intros; cbn [pieces length]; [reflexivity | now rewrite IHk]. Qed.
+
+  Lemma pieces_nth n g m : forall k j i rest, (j < k)%nat ->
+    nth_error (pieces k n g m i rest) j =
+    Some (mkfrag n g m (i + Z.of_nat j) (take F (drop (Z.of_nat j * F) rest))).
+  Proof.
+    induction k as [|k IH]; intros j i rest Hj; [lia|].
+    destruct j as [|j]; cbn [pieces nth_error].
+    - cbn [Z.of_nat]. rewrite Z.mul_0_l, drop_0, Z.add_0_r. reflexivity.
+    - rewrite IH by lia. rewrite drop_drop by lia.
+      do 3 f_equal; [lia | f_equal; lia].
+  Qed.
+
+  Lemma pieces_concat n g m : forall k i rest,
+    concat (map p_data (pieces k n g m i rest)) = take (Z.of_nat k * F) rest.
+  Proof.
+    induction k as [|k IH]; intros i rest.
+    - reflexivity.
+    - cbn [pieces map concat mkfrag p_data]. rewrite IH.
+      rewrite take_app_drop by lia. f_equal; lia.
+  Qed.
+
+  Lemma pieces_Forall (P : packet A -> Prop) n g m :
+    (forall i d, len d <= F -> P (mkfrag n g m i d)) ->
+    forall k i rest, Forall P (pieces k n g m i rest).
+  Proof.
+    intros HP; induction k; intros; cbn [pieces]; constructor; [|apply IHk].
+    apply HP. rewrite len_take by lia. lia.
+  Qed.
+
+  Lemma nfrag_pos (n : packet A) : 0 <= p_tags n -> 1 <= nfrag F n.
+  Proof.
+    intros Ht; unfold nfrag. pose proof (size_gt_len n Ht). pose proof (len_nonneg (p_data n)).
+    assert (0 <= size n / F) by (apply Z.div_pos; lia). lia.
+  Qed.
+
+  Lemma split_pieces g (n : packet A) : 0 <= p_tags n ->
+    split F g n = pieces (Z.to_nat (nfrag F n)) n g (nfrag F n) 0 (p_data n).
+  Proof.
+    intros Ht; unfold split; fold (nfrag F n).
+    pose proof (nfrag_pos n Ht). pose proof (size_gt_len n Ht).
+    apply carve_pieces; lia.
+  Qed.
+
+  Lemma nfrag_covers (n : packet A) : 0 <= p_tags n -> len (p_data n) < nfrag F n * F.
+  Proof.
+    intros Ht. pose proof (size_gt_len n Ht). unfold nfrag.
+    pose proof (Z.mul_succ_div_gt (size n) F HF). lia.
+  Qed.
+
+  Theorem split_length g (n : packet A) : 0 <= p_tags n -> len (split F g n) = nfrag F n.
+  Proof.
+    intros Ht. rewrite split_pieces by assumption. unfold len. rewrite pieces_length.
+    pose proof (nfrag_pos n Ht). lia.
+  Qed.
+
+  Theorem split_nth g (n : packet A) i : 0 <= p_tags n -> 0 <= i < nfrag F n ->
+    nth_error (split F g n) (Z.to_nat i) =
+    Some (mkfrag n g (nfrag F n) i (take F (drop (i * F) (p_data n)))).
+  Proof.
+    intros Ht Hi. rewrite split_pieces by assumption. rewrite pieces_nth by lia.
+    rewrite Z2Nat.id by lia. reflexivity.
+  Qed.
+
+  Theorem split_concat g (n : packet A) : 0 <= p_tags n ->
+    concat (map p_data (split F g n)) = p_data n.
+  Proof.
+    intros Ht. rewrite split_pieces by assumption. rewrite pieces_concat.
+    pose proof (nfrag_pos n Ht). pose proof (nfrag_covers n Ht).
+    apply take_all. rewrite Z2Nat.id by lia. lia.
+  Qed.
+
+  Theorem split_each g (n : packet A) : 0 <= p_tags n ->
+    Forall (fun f => len (p_data f) <= F /\ p_id f = p_id n /\ p_job f = p_job n /\ p_dev f = p_dev n /\
+                     p_tags f = 0 /\ f_group (p_flags f) = g /\ f_len (p_flags f) = u16 (nfrag F n) /\
+                     has_frag (p_flags f) = true) (split F g n).
+  Proof.
+    intros Ht. rewrite split_pieces by assumption. apply pieces_Forall.
+    intros i d Hd. cbn. repeat split; try assumption.
+    unfold has_frag; cbn. rewrite !Z.lor_spec. apply orb_true_r.
+  Qed.
+
+  (* fragment i is empty exactly when the payload ends at or before i*F *)
+  Theorem split_empty_iff (n : packet A) i : 0 <= i ->
+    is_nil (take F (drop (i * F) (p_data n))) = true <-> len (p_data n) <= i * F.
+  Proof.
+    intros Hi. rewrite is_nil_len, len_take, len_drop by lia. lia.
+  Qed.
+
+  (* enough fragments: ceil(P/F) <= m, and never two more than needed once F exceeds the header *)
+  Theorem frag_count_enough (n : packet A) : 0 <= p_tags n ->
+    (len (p_data n) + F - 1) / F <= nfrag F n.
+  Proof.
+    intros Ht. pose proof (nfrag_covers n Ht). pose proof (len_nonneg (p_data n)).
+    apply Z.lt_succ_r. apply Z.div_lt_upper_bound; lia.
+  Qed.
+End SenderProofs.
